@@ -212,6 +212,16 @@ static bool chain_step(ChainState& st, mon::Rng& rng)
         break;
       }
       case 14: { // -> , * and & chains that start from a null struct pointer
+        if (rng.below(3) == 0) {
+          // ... and from a null pointer to an ARRAY (a pointee that is not a class, but has members all the same): &(*p)[i]
+          opclass = "element-of-null-array";
+          tainted<int(*)[4], S> na = nullptr;
+          int i = 1 + static_cast<int>(rng.below(3));
+          bool arrow2 = rng.coin();
+          next = arrow2 ? addr_any(&(na->operator[](i))) : addr_any(&(*na)[i]);
+          desc += mon::fmt("&%s[%d] ", arrow2 ? "null->" : "(*null)", i);
+          break;
+        }
         opclass = "field-of-null";
         tainted<PS*, S> np = nullptr;
         // what &np->field yields is the address operator-> (or operator*) returns plus the field's offset in the sandbox
